@@ -665,3 +665,10 @@ def open_envelope(files, opaque, p):
     img[512: 4096] = bytes(4096 - 512)
     img[512: 512 + len(blob)] = blob
     return envelope.Envelope(io.BytesIO(bytes(img)))
+
+
+@register("vhdx_container")
+def open_vhdx_container(files, opaque, p):
+    from dissect.hypervisor.disk.vhdx import VHDX
+
+    return VHDX(files["img"])
